@@ -1,5 +1,8 @@
 """C02 - exact partitioners attain the true optimum of their objective (DESIGN.md section 4 C02)."""
-from .part import job
+import json, os
+from .part import job, tierb
+
+VEC = {v['name']: v for v in json.load(open(os.path.join(os.path.dirname(os.path.dirname(os.path.abspath(__file__))), 'vectors.json')))['partition']}
 
 EXACT_DIFF = ('ckk', 'snp', 'rnp')
 OBJ3 = ('diff', 'max', 'min')
@@ -26,12 +29,42 @@ def jobs(tier):
     for o in OBJ3:
         for mask in (range(16) if T else (0, 1, 2, 4, 8, 11, 15)):
             J.append(job('C02', 'cg', 4, 3, obj=o, cg_mask=mask, checks=ck))
+    # (5,k) non-increasing: (5,2) contains LPT's tight instance, i.e. the first leaf of complete greedy is not optimal there
+    for o in OBJ3:
+        for mask in range(16):
+            J.append(job('C02', 'cg', 5, 2, obj=o, cg_mask=mask, order='desc', checks=ck))
+        for mask in ((11, 15) if o != 'diff' or T else (11,)):
+            J.append(job('C02', 'cg', 5, 3, obj=o, cg_mask=mask, order='desc', checks=ck))
+    for o in ('klargest:2', 'ksmallest:2', 'klargest:3'):
+        J.append(job('C02', 'ilp', 2, 4, obj=o, checks=ck)); J.append(job('C02', 'dp', 3, 4, obj=o, checks=ck, order='desc'))
+        if o != 'klargest:3' or T:
+            J.append(job('C02', 'ilp', 3, 4, obj=o, order='desc', checks=ck))
     for alg in (EXACT_DIFF if T else ('snp', 'rnp')):
         J.append(job('C02', alg, 5, 3, obj='diff', order='desc', checks=ck))
     for o in ('diff', 'max', 'min', 'klargest:2', 'ksmallest:2'):
         J.append(job('C02', 'ilp', 3, 2, obj=o, checks=ck))
     J.append(job('C02', 'ilp', 3, 3, obj='diff', checks=ck, order='desc')); J.append(job('C02', 'ilp', 4, 2, obj='min', checks=ck, order='desc'))
+    # tier B: the repository's own 7-8-item vectors with one position replaced by a solver variable (every value of it)
+    W = VEC['walter']
+    for h in range(7):
+        J.append(tierb('C02', 'rnp', W, 4, [h], obj='diff', checks=ck))
+    for h in (1, 4):
+        J.append(tierb('C02', 'rnp', W, 3, [h], obj='diff', checks=ck)); J.append(tierb('C02', 'snp', W, 3, [h], obj='diff', checks=ck))
+    J.append(tierb('C02', 'ckk', W, 3, [2], obj='diff', checks=ck)); J.append(tierb('C02', 'cg', W, 3, [3], obj='diff', cg_mask=11, checks=ck))
+    J.append(tierb('C02', 'rnp', VEC['snp-test-8'], 4, [2], obj='diff', checks=ck))
     if T:
+        for h in range(7):
+            J.append(tierb('C02', 'rnp', W, 3, [h], obj='diff', checks=ck)); J.append(tierb('C02', 'rnp', W, 5, [h], obj='diff', checks=ck))
+            J.append(tierb('C02', 'snp', W, 3, [h], obj='diff', checks=ck)); J.append(tierb('C02', 'snp', W, 4, [h], obj='diff', checks=ck))
+            J.append(tierb('C02', 'rnp', VEC['c02-text'], 4, [h], obj='diff', checks=ck))
+            J.append(tierb('C02', 'ckk', W, 3, [h], obj='diff', checks=ck))
+        for h in (0, 3, 6):
+            J.append(tierb('C02', 'cg', W, 3, [h], obj='max', cg_mask=15, checks=ck)); J.append(tierb('C02', 'cg', W, 3, [h], obj='min', cg_mask=11, checks=ck))
+            J.append(tierb('C02', 'dp', VEC['dp-doctest'], 3, [h], obj='diff', checks=ck))
+        for pair in ((0, 1), (1, 4), (2, 6), (3, 5)):
+            J.append(tierb('C02', 'rnp', W, 4, list(pair), obj='diff', checks=ck, mandatory=False))
+        for h in (0, 3, 7):
+            J.append(tierb('C02', 'rnp', VEC['snp-test-8'], 4, [h], obj='diff', checks=ck)); J.append(tierb('C02', 'rnp', VEC['ilp-doctest-8'], 4, [h], obj='diff', checks=ck, mandatory=False))
         for o in ('diff', 'max', 'min', 'klargest:2', 'ksmallest:2'):
             J.append(job('C02', 'ilp', 3, 3, obj=o, checks=ck)); J.append(job('C02', 'ilp', 4, 2, obj=o, checks=ck))
         for alg in EXACT_DIFF + ('cg',):
@@ -49,5 +82,5 @@ def jobs(tier):
 
 ASSUMPTIONS = ['S1 numpy shim', 'S2 exact arithmetic for float64 sums < 2^53', 'S3 constant hash of symbolic numbers',
                'S6 MIP contract stub for ilp (any feasible optimal integer assignment may be returned)']
-OUTSIDE = ['more than 5 items (6+ only through tier B vectors)', 'RNP with more than 5 bins', 'behaviour of the real CBC solver',
+OUTSIDE = ['more than 5 fully symbolic items; 7-8 items only as tier B (repository vectors with one or two positions symbolic)', 'RNP with more than 5 bins', 'behaviour of the real CBC solver',
            'orders other than non-increasing for the (5,k) shapes']
